@@ -154,3 +154,26 @@ class Dag:
         if ty is None:
             raise R.Unsupported(f"no scalar type for frontier node {n}")
         return R.sym_for(n + tag, ty)
+
+
+def eval_cols(dag, n, frontier, cache, ctx, stop_at=()):
+    """value of node n as a column over N persons (SymArray).  `frontier`: {name: SymArray}.
+    Rules are applied element-wise through the real vectorize wrapper, aggregations / groupings /
+    skip_vectorization rules run their real whole-column source on SymArrays (colsym models)."""
+    from gsv import colsym  # noqa: F401  (registers the numpy / numpy_groupies models)
+    if n in cache:
+        return cache[n]
+    if n in frontier:
+        cache[n] = frontier[n]
+        return cache[n]
+    k = dag.kind(n)
+    if k == "input" or n in stop_at:
+        raise R.Unsupported(f"frontier node {n} ({k}) has no value")
+    kwargs = {p: eval_cols(dag, p, frontier, cache, ctx, stop_at) for p in dag.parents(n)}
+    with R.using(ctx):
+        try:
+            v = R.call_value(dag.funcs[n], [], kwargs)
+        except R.PathEnd:
+            v = None
+    cache[n] = v
+    return v
